@@ -158,6 +158,10 @@ class Run(object):
             return n
         if sel == 'big':
             return n + 1 + r % 5
+        if sel == 'ssmax':
+            return 2 ** 63 - 1 - r % 2
+        if sel == 'ssmin':
+            return -2 ** 63 + r % 2
         return 2 ** 70 + r
 
     def elem_ok(self, v, i):
@@ -533,7 +537,7 @@ class C16(core.Check):
 
     def generate(self, rng, idx, tier):
         ops = [['new', rng.choice(KNAMES), rng.randint(0, 8), False]]
-        sel = ['in', 'in', 'in', 'neg', 'eq', 'big', 'huge']
+        sel = ['in', 'in', 'in', 'in', 'neg', 'eq', 'big', 'huge', 'ssmax', 'ssmin']
         ssel = ['in', 'in', 'in', 'in', 'neg', 'big', 'eq']
         faulty = rng.chance(0.5)
         for _ in range(rng.randint(4, 50)):
